@@ -40,7 +40,7 @@ structure Hdr (χ : Type) where
   wok : Bool
 
 inductive Rej where
-  | noconsensus | scripthash | witness | noscript | contract | nowitness
+  | noconsensus | scripthash | witness | noscript | contract | nowitness | initialized
   deriving DecidableEq, Repr
 
 inductive Out where
@@ -72,11 +72,11 @@ def syncBlockHeader {χ : Type} [BEq χ] (st : Option (Tracked χ)) (hs : List (
     | .ok none => (some t, .ok)
     | .ok (some t') => (some t', .ok)
 
-/-- `SyncGenesisHeader` after the operator-witness gate: installs only when nothing is tracked; never fails. -/
+/-- `SyncGenesisHeader` after the operator-witness gate: installs only when nothing is tracked, refuses otherwise. -/
 def syncGenesis {χ : Type} (st : Option (Tracked χ)) (index : Nat) (next : χ) : Option (Tracked χ) × Out :=
   match st with
   | none => (some ⟨index, next⟩, .ok)
-  | some t => (some t, .ok)
+  | some t => (some t, .reject .initialized)
 
 /-! ## State-root messages -/
 
